@@ -64,9 +64,12 @@ DocAt(i) ==
   LET N == Names(i % 3)
       d == (i \div 3) % 3                                      \* 0: depth <= 1, 1: depth 2, 2: module file
       tn == i \div 9
-      base == IF d = 1 THEN Tree2At(N, tn) ELSE Tree1At(N, tn)
+      \* the dimensions are decoded from tn with different strides so that they do not move in lock step
+      \* (root operator = tr % 3, position of the direct assignment = tn % 3, parentheses = (tn \div 3) % 4, variants = (tn \div 2) % 3)
+      tr == tn + 7 * (tn \div 3)
+      base == IF d = 1 THEN Tree2At(N, tr) ELSE Tree1At(N, tr)
       t == WithPar(WithThis(base, tn % 3), (tn \div 3) % 4)
-      v == tn % 3
+      v == (tn \div 2) % 3
       rel(n, rw, restr) == [name |-> n, rw |-> rw, restr |-> restr]
       docrels == << rel(N.p, [k |-> "this"], <<Ty(N.doc)>>), rel(N.x, t, RestrAt(N, v)), rel(N.a, [k |-> "this"], <<Ty(N.user)>>), rel(N.b, [k |-> "this"], <<Ty(N.user), Us(N.doc, N.a)>>) >>
   IN IF d = 2
